@@ -61,6 +61,8 @@ pub fn run_pool(f: &[&str]) -> String {
         let (counts, started, done, t, rok) = (counts.clone(), started.clone(), done.clone(), trace.clone(), rdv_ok.clone());
         let k = spec[j];
         let my_rdv = if k == 'r' { rdv_index += 1; rdv_index } else { 0 };
+        // 'd': the submitter pauses first, so that the pool has been idle for a while when this (instant) task arrives
+        if k == 'd' { std::thread::sleep(Duration::from_millis(350)); }
         pool.execute(move || {
             t.lock().unwrap().push(format!("J{}:{}", j, std::thread::current().name().unwrap_or("?")));
             counts[j].fetch_add(1, Ordering::SeqCst);
